@@ -446,7 +446,7 @@ func TestVerif_C24(t *testing.T) {
 	defer b.Close()
 
 	rows := c24Table(c24Endpoints)
-	reps := run.N(1, 6)
+	reps := run.N(3, 12)
 	run.Count("table_rows", int64(len(rows)))
 	// answer chosen for an open documentation question, per question: first endpoint's observed choice
 	type choice struct{ answer, endpoint string }
@@ -522,28 +522,37 @@ func TestVerif_C24(t *testing.T) {
 		if !out.Accepted || c.Expect.MustRefuse {
 			return // the table pass judges refusals; nothing to wait for here
 		}
-		handed := 0
+		// the events of THIS request that were handed to the upstream transmission
+		need := map[string]bool{}
 		for _, o := range wb.Log.Effects() {
 			if o.Where == E3AtUpstreamEvent {
-				handed++
+				need[o.Ev.ID] = true
 			}
 		}
-		if handed == 0 {
+		if len(need) == 0 {
 			return
 		}
-		if !wb.Wire.Await(handed, 20*time.Second) {
-			run.Inconclusive("wire: fake Honeycomb did not receive the events handed to the upstream transmission within the bound")
-			return
+		got := map[string]E3WireEvent{}
+		for len(got) < len(need) {
+			if !wb.Wire.Await(1, 20*time.Second) {
+				run.Inconclusive("wire: fake Honeycomb did not receive the events handed to the upstream transmission within the bound")
+				return
+			}
+			for _, we := range wb.Wire.Take() {
+				if need[we.ID] { // events of earlier requests are not this row's business
+					got[we.ID] = we
+				}
+			}
 		}
-		for _, we := range wb.Wire.Take() {
-			got := we.Header.Values(types.APIKeyHeader)
+		for _, we := range got {
+			keys := we.Header.Values(types.APIKeyHeader)
 			run.Count("wire_events", 1)
-			if len(got) != 1 || !c24In(c.Expect.Out, got[0]) {
+			if len(keys) != 1 || !c24In(c.Expect.Out, keys[0]) {
 				kind := "wrong-key-on-the-wire/mode-" + row.Mode + "/" + row.Class
-				if len(got) == 0 || got[0] == "" {
+				if len(keys) == 0 || keys[0] == "" {
 					kind = "blank-key-on-the-wire"
 				}
-				run.Violation("C24/"+row.Endpoint+"/"+kind, fmt.Sprintf("request to Honeycomb carried X-Honeycomb-Team %q, documented %q", got, c.Expect.Out),
+				run.Violation("C24/"+row.Endpoint+"/"+kind, fmt.Sprintf("request to Honeycomb carried X-Honeycomb-Team %q, documented %q", keys, c.Expect.Out),
 					map[string]any{"case": c, "request": reqWit, "outcome": out, "wire_event": we})
 			}
 		}
